@@ -397,6 +397,10 @@ def link_or_data_split(F, S):
 def check(F, run, tier):
     S = Summaries(F)
     run.declined = DECLINED
+    from ..rules_valid import verifier_arguments
+    _va, _vn = verifier_arguments(F)
+    run.add(_va)
+    run.floor("verifier-arguments", _vn, 30)
     run.explanation = (
         "Static analysis of the adaptive Huffman tree's refusal and consistency clauses (the tree invariants themselves are "
         "declined). Decided: the capacity refusal (root count == maximum of the counters' element type) dominates the first "
